@@ -1448,3 +1448,121 @@ func derefArray(t types.Type) (int64, bool) {
 	}
 	return 0, false
 }
+
+// ---- additional necessary condition found by the third round of seeded changes ----
+
+func init() {
+	reg := registry["C08"]
+	reg.Meta.Rules["C08.8"] = "LZF decoders replicate a back-reference byte by byte (or with a copy proven not to overlap): source and destination of a back-reference may overlap, and a block move does not re-read what it has just written"
+	reg.Rules = append(reg.Rules, c08lzfOverlap)
+}
+
+// c08lzfOverlap: in each lzfDecompress, a builtin copy whose source and destination are slices of the same buffer must have
+// src.High <= dst.Low proven (no overlap); the byte-serial form `output = append(output, output[srcPos+i])` is the reference.
+func c08lzfOverlap(c *Ctx, r *Result) {
+	n := 0
+	for _, name := range []string{"core.lzfDecompress", "writer.lzfDecompress"} {
+		fn := c.Fn(r, name)
+		if fn == nil {
+			continue
+		}
+		n++
+		fb := c.FB(fn)
+		bad := ""
+		serial := false
+		instrs(fn, func(in ssa.Instruction) {
+			call, ok := in.(*ssa.Call)
+			if !ok {
+				return
+			}
+			b, ok := call.Call.Value.(*ssa.Builtin)
+			if !ok {
+				return
+			}
+			switch b.Name() {
+			case "copy":
+				dst, ok1 := call.Call.Args[0].(*ssa.Slice)
+				src, ok2 := call.Call.Args[1].(*ssa.Slice)
+				if !ok1 || !ok2 || !sameBufferChain(dst.X, src.X) {
+					return
+				}
+				if src.High == nil || dst.Low == nil || !fb.ProveGE0At(fb.lin(dst.Low).add(fb.lin(src.High), -1), call) {
+					bad = c.InstrPos(call)
+				}
+			case "append":
+				// append(output, output[k]): one byte re-read from the buffer being extended
+				if len(call.Call.Args) == 2 {
+					if sl, ok := call.Call.Args[1].(*ssa.Slice); ok {
+						if al, ok := sl.X.(*ssa.Alloc); ok {
+							for _, ref := range *al.Referrers() {
+								if ia, ok := ref.(*ssa.IndexAddr); ok {
+									for _, r2 := range *ia.Referrers() {
+										if st, ok := r2.(*ssa.Store); ok {
+											if ld, ok := isLoad(st.Val); ok {
+												if ia2, ok := ld.X.(*ssa.IndexAddr); ok && sameBufferChain(ia2.X, call.Call.Args[0]) {
+													serial = true
+												}
+											}
+										}
+									}
+								}
+							}
+						}
+					}
+				}
+			}
+		})
+		switch {
+		case bad != "":
+			r.Viol("C08.8", name+"#backref-replicated-serially", bad, "a back-reference is expanded with a block copy inside the output buffer whose ranges are not shown to be disjoint: with offset < length the bytes written by this very reference must be re-read (run-length style data decodes to zeros)")
+		case serial:
+			r.Hold("C08.8", name+"#backref-replicated-serially", c.Pos(fn.Pos()), "back-references are expanded byte by byte from the growing output")
+		default:
+			r.Undec("C08.8", name+"#backref-replicated-serially", c.Pos(fn.Pos()), "expansion of back-references not recognised")
+		}
+	}
+	if n < 2 {
+		r.Errorf("C08.8: lzfDecompress implementations not found")
+	}
+	r.Floor("C08.8", 2)
+}
+
+// sameBufferChain: both values are versions of one growing buffer (the same value, or connected through phi / append / slices.Grow / re-slice).
+func sameBufferChain(a, b ssa.Value) bool {
+	roots := func(v ssa.Value) map[ssa.Value]bool {
+		out := map[ssa.Value]bool{}
+		var walk func(v ssa.Value, d int)
+		walk = func(v ssa.Value, d int) {
+			if v == nil || out[v] || d > 12 {
+				return
+			}
+			out[v] = true
+			switch x := v.(type) {
+			case *ssa.Phi:
+				for _, e := range x.Edges {
+					walk(e, d+1)
+				}
+			case *ssa.Slice:
+				walk(x.X, d+1)
+			case *ssa.Call:
+				if b, ok := x.Call.Value.(*ssa.Builtin); ok && b.Name() == "append" {
+					walk(x.Call.Args[0], d+1)
+				} else if f := x.Call.StaticCallee(); f != nil && f.Name() == "Grow" {
+					walk(x.Call.Args[0], d+1)
+				}
+			}
+		}
+		walk(v, 0)
+		return out
+	}
+	ra, rb := roots(a), roots(b)
+	for v := range ra {
+		if rb[v] {
+			if _, isConst := v.(*ssa.Const); isConst {
+				continue
+			}
+			return true
+		}
+	}
+	return false
+}
